@@ -249,6 +249,18 @@ void World::queue_raw(int ci, const std::string &bytes, int lines) {
   Client &c = C(ci);
   if (c.closed) return;
   if (c.begun) c.wire_stream += bytes;
+  else {
+    // a hand-written handshake: whatever follows the first BEGIN line is what the loader will see
+    c.raw_handshake += bytes;
+    size_t p = c.raw_handshake.find("BEGIN\r\n");
+    // a command is a whole line: BEGIN counts only at the start of a line ended by CR LF
+    while (p != std::string::npos && !(p == 1 && c.raw_handshake[0] == '\0') && !(p >= 2 && c.raw_handshake[p - 1] == '\n' && c.raw_handshake[p - 2] == '\r'))
+      p = c.raw_handshake.find("BEGIN\r\n", p + 1);
+    if (p != std::string::npos) {
+      c.begun = true;
+      c.wire_stream = c.raw_handshake.substr(p + 7);
+    }
+  }
   c.out += bytes;
   c.expect_lines += lines;
 }
